@@ -61,6 +61,9 @@ func (p *c11Proj) render() map[string]string {
 		}
 		b.WriteString("    cmds:\n")
 		obs := fmt.Sprintf(`printf 'OBS %s x=%%s here=%%s file=%%s fromx=%%s plain=%%s global=%%s pwd=%%s kv=%%s xe=%%s genv=%%s\n' '{{.X}}' '{{.HERE}}' '{{.FROMFILE}}' '{{.FROMX}}' '{{.PLAIN}}' '{{.GLOBAL_DYN}}' "$(pwd)" "$KV" "$XE" "$GENV" >> "$VERIF_TRACE"`, t.Name)
+		// a deferred command is templated lazily: it must see this call's values too
+		dobs := fmt.Sprintf(`printf 'OBS %s x=%%s deferred=%%s-%%s\n' '{{.X}}' '{{.PLAIN}}' '{{.FROMX}}' >> "$VERIF_TRACE"`, t.Name)
+		fmt.Fprintf(b, "      - defer: %s\n", yamlq(dobs))
 		fmt.Fprintf(b, "      - cmd: %s\n", yamlq(obs))
 		if t.Matrix {
 			m := fmt.Sprintf(`printf 'OBS %s x=%%s item=%%s-%%s\n' '{{.X}}' '{{.ITEM.A}}' '{{.ITEM.B}}' >> "$VERIF_TRACE"`, t.Name)
